@@ -1,0 +1,63 @@
+//go:build verif
+
+package index
+
+import (
+	"encoding/binary"
+	"fmt"
+)
+
+// Verification hook for property C01, layer L12: the in-memory b-tree over the sorted ngram section and
+// btreeIndex.Get. Not part of the normal build.
+
+type verifMemFile struct{ data []byte }
+
+func (f *verifMemFile) Read(off, sz uint32) ([]byte, error) {
+	if off > off+sz || off+sz > uint32(len(f.data)) {
+		return nil, fmt.Errorf("out of bounds")
+	}
+	return f.data[off : off+sz], nil
+}
+func (f *verifMemFile) Size() (uint32, error) { return uint32(len(f.data)), nil }
+func (f *verifMemFile) Close()                {}
+func (f *verifMemFile) Name() string          { return "verif-mem" }
+
+// VerifBtree inserts the (sorted) ngrams into a b-tree with the given options exactly as newBtreeIndex does
+// (insert in order, then freeze), lays out an ngram section, a posting-offset index and 3-byte posting lists in an
+// in-memory IndexFile, and reports: the tree's String() (options and inner keys), for every query the result of
+// btree.find, and the result of btreeIndex.Get translated back to the index of the posting list (-1 = not found).
+func VerifBtree(bucketSize, v int, ngrams []uint64, queries []uint64) (shape string, finds [][2]int, gets []int) {
+	bt := newBtree(btreeOpts{bucketSize: bucketSize, v: v})
+	for _, ng := range ngrams {
+		bt.insert(ngram(ng))
+	}
+	bt.freeze()
+
+	n := len(ngrams)
+	// layout: [ngram section: 8n][posting lists: 3n][posting index: 4n]
+	const plSize = 3
+	ngSec := simpleSection{off: 0, sz: uint32(ngramEncoding * n)}
+	plStart := ngSec.sz
+	idxSec := simpleSection{off: plStart + uint32(plSize*n), sz: uint32(4 * n)}
+	data := make([]byte, idxSec.off+idxSec.sz)
+	for i, ng := range ngrams {
+		binary.BigEndian.PutUint64(data[ngramEncoding*i:], ng)
+		binary.BigEndian.PutUint32(data[int(idxSec.off)+4*i:], plStart+uint32(plSize*i))
+	}
+	bi := btreeIndex{bt: bt, file: &verifMemFile{data: data}, ngramSec: ngSec, postingIndex: idxSec}
+
+	for _, q := range queries {
+		b, p := bt.find(ngram(q))
+		finds = append(finds, [2]int{b, p})
+		ss := bi.Get(ngram(q))
+		switch {
+		case ss.off == 0 && ss.sz == 0:
+			gets = append(gets, -1)
+		case ss.sz != plSize || ss.off < plStart || (ss.off-plStart)%plSize != 0:
+			gets = append(gets, -2) // a section that is not one of the posting lists
+		default:
+			gets = append(gets, int(ss.off-plStart)/plSize)
+		}
+	}
+	return bt.String(), finds, gets
+}
